@@ -37,7 +37,8 @@ PROPS = {
     "C05": dict(units=["spawn"], kani=["w_make_standard_stream", "w_dup2", "w_pipe", "w_set_inheritable"], level="proof",
                 bounded_scenarios=[("c05_wiring", "all 125 settings of (stdin, stdout, stderr) over {inherit, pipe, file, shared file, merge} through the real crate: the child reports where its descriptors 0..2 point (/proc), compared with the parent's own streams, the inode of the pipe end exposed on the Popen, the file's path, the other stream; the 45 documented invalid settings must be refused without starting anything")]),
     "C06": dict(units=["spawn", "exec", "builder"], kani=["w_fork_ids", "w_os_to_cstring_b4", "w_chdir"], level="proof",
-                bounded_scenarios=[("c15_path_lookup", "the explicit-executable cases of the PATH lookup scenario: argv[0] is what was given while the named executable is what runs, with and without slashes in either")],
+                bounded_scenarios=[("c15_path_lookup", "the explicit-executable cases of the PATH lookup scenario: argv[0] is what was given while the named executable is what runs, with and without slashes in either"),
+                                   ("c16_builder_model", "1631 command descriptions: every sequence of up to 3 of 9 builder edits (env/env_remove/env_clear/env_extend/arg), each also through a clone taken half-way, run through the real crate and /bin/sh against a plain model")],
                 natives=[("units/native/format_env.nt.rs", "9331 environment lists: all lists of 0..5 entries over the names {A,B,CC} and the values {empty, x}"),
                          ("units/native/cvec.nt.rs", "11132 argument vectors: 0..3 strings of length 0..3 (pairs/triples 0..2) over the bytes {a, /, NUL, 0xff}; pointer table read back through raw pointers")]),
     "C07": dict(units=["spawn", "exec"], kani=["w_pipe", "w_fork_ids", "w_waitpid"], level="proof",
@@ -52,11 +53,11 @@ PROPS = {
                 bounded_scenarios=[("c19_shell_roundtrip", "1778 argument vectors (1-2 arguments of length 0..3 over the alphabet a,space,',\",$,*,\\,newline,e-acute, plus 24 hand-picked strings) printed through Debug and evaluated by the real /bin/sh; the Debug output of pipelines of 2..5 commands in every composition shape (iterator, left-nested |, pipeline | pipeline)")]),
     "C18": dict(units=["spawn"], kani=["w_reset_sigpipe"], level="proof",
                 bounded_scenarios=[("c18_signal_state", "84 children through the real crate: 4 signal masks blocked in the spawning thread x parent SIGPIPE {ignored, default, handled} x {bare name, absolute path, explicit executable, Exec::shell, first / middle / last pipeline stage}; SigBlk must be empty and SIGPIPE not ignored in /proc/$$/status")]),
-    "C12": dict(units=["builder", "pstate"], kani=["w_reset_sigpipe"], level="proof",
+    "C12": dict(units=["builder", "pstate", "spawn"], tagged_units=["spawn"], kani=["w_reset_sigpipe"], level="proof",
                 bounded_scenarios=[("c12_handle_cleanup", "45 owning handles through the real crate: dropped Popen, join, capture of a command and of a pipeline against 6 child behaviours (cat; ignores input; closes stdin early then writes 300000 bytes to stdout / to stderr; floods stderr then cat; closes its outputs early and keeps working) x 3 input sizes (none, 20, 1000000 bytes), the five stream adapters dropped early; each must return within seconds and leave no child running or unreaped")]),
-    "C13": dict(units=["builder"], kani=["w_dup2", "w_pipe"], level="proof",
+    "C13": dict(units=["builder", "spawn", "pstate"], tagged_units=["spawn", "pstate"], kani=["w_dup2", "w_pipe"], level="proof",
                 bounded_scenarios=[("c13_pipeline_shapes", "14 pipelines: 2..5 stages in every composition shape (iterator, left-nested |, pipeline|pipeline, Pipeline|Exec) through the real crate and sh; join/capture against a first stage that closes its streams and keeps working")]),
-    "C14": dict(units=["builder"], kani=[], level="proof",
+    "C14": dict(units=["builder", "spawn", "pstate"], tagged_units=["spawn", "pstate"], kani=[], level="proof",
                 bounded_scenarios=[("c14_partial_failure", "123 failing pipelines: n = 2..4 `cat` stages, every failing position, stdin null/pipe/data, popen/join/capture/communicate/stream_stdout/stream_stdin, and for capture/communicate also started commands that first write 300000 bytes to their stderr; promptness, no child left, descriptor count")]),
     "C16": dict(units=["builder"], bounded_scenarios=[("c16_builder_model", "1631 command descriptions: every sequence of up to 3 of 9 builder edits (env/env_remove/env_clear/env_extend/arg), each also through a clone taken half-way, run through the real crate and /bin/sh against a plain model")],
                 kani=["r_exec_stdin_refuses", "r_exec_stdout_refuses", "r_exec_stderr_refuses", "r_exec_terminators_refuse_data", "w_exec_stdin_accepts"], level="proof"),
